@@ -341,8 +341,8 @@ theorem n1_map (g : Blk → Blk) (hg : ∀ x, (g x).c.blockNum = x.c.blockNum) (
 
 theorem n1_emptyFrag (p : Primary) (bs : List Blk) (o t : Nat) (h : n1 bs ≤ 1) :
     n1 (emptyFrag p bs o t).blocks ≤ 1 := by
-  simp only [emptyFrag, fillFields]
-  rw [n1_map _ fillBlk_num]
+  simp only [emptyFrag, fillFields, clearPayload]
+  rw [n1_map _ fillBlk_num, n1_map _ (fun x => by split <;> rfl)]
   exact Nat.le_trans (n1_filter_le _ _) h
 
 theorem take_drop_length_le (pdata : Bytes) (o k : Nat) :
@@ -387,8 +387,11 @@ theorem filled_fragAt (m pe : Nat) (pdata : Bytes) (p : Primary) (bs : List Blk)
   apply filled_setBtsd
   apply filled_fillFields
   refine ⟨hp, ?_⟩
-  intro x hx
-  exact hbs x (List.mem_filter.1 hx).1
+  intro y hy
+  simp only [clearPayload, List.mem_map] at hy
+  obtain ⟨x, hx, rfl⟩ := hy
+  have := hbs x (List.mem_filter.1 hx).1
+  split <;> simpa using this
 
 /-! ### block numbers -/
 
@@ -436,8 +439,9 @@ theorem sendBundle_ok (cfg : Cfg) (now : Timestamp) (mtu : Option Nat) (b : FBun
     sendBundle cfg now mtu b =
       match create mtu (prep cfg now b) with
       | .skip => ⟨false, some (finalize cfg (prep cfg now b)), []⟩
-      | .frags fs => ⟨true, none, fs⟩
-      | .raised fs c => ⟨false, some (finalize cfg c), fs⟩ := by
+      | .frags fs => ⟨false, none, fs⟩
+      | .raised fs true => ⟨true, none, fs⟩
+      | .raised fs false => ⟨false, some (finalize cfg (prep cfg now b)), fs⟩ := by
   unfold sendBundle prep
   simp only [h1, h2, Bool.not_true, Bool.or_false, Bool.false_eq_true, if_false]
   split <;> simp_all
@@ -483,7 +487,7 @@ theorem create_frags {m : Nat} {b : FBundle} {fs : List FBundle} (h : create (so
     ∃ pb pdata, payloadBlk b.blocks = some pb ∧ pb.c.btsd = some pdata ∧
       m < b.size ∧ noFragment b.primary.flags = false ∧ isFragment b.primary.flags = false ∧
       b.size - pdata.length + 3 * headLen pdata.length ≤ m ∧
-      (createLoop m (headLen pdata.length) pdata b.primary (setBtsd none b.blocks) pdata.length 0) = (fs, false) := by
+      (createLoop m (headLen pdata.length) pdata b.primary b.blocks pdata.length 0) = (fs, false) := by
   unfold create at h
   simp only [] at h
   split at h
@@ -546,9 +550,11 @@ theorem payload_setBtsd (v : Option Bytes) (bs : List Blk) (h : ∃ x ∈ bs, x.
 theorem emptyFrag_has_payload (p : Primary) (bs : List Blk) (o t : Nat) (h : ∃ x ∈ bs, x.c.blockNum = 1) :
     ∃ y ∈ (emptyFrag p bs o t).blocks, y.c.blockNum = 1 := by
   obtain ⟨x, hx, h1⟩ := h
-  refine ⟨fillBlk x, ?_, by simpa using h1⟩
-  simp only [emptyFrag, fillFields, selectBlocks, List.mem_map]
-  exact ⟨x, List.mem_filter.2 ⟨hx, by simp [h1]⟩, rfl⟩
+  have hb : (x.c.blockNum == 1) = true := by simp [h1]
+  refine ⟨fillBlk { c := { x.c with btsd := some [] }, layer := none }, ?_, by simpa using h1⟩
+  simp only [emptyFrag, fillFields, selectBlocks, clearPayload, List.mem_map]
+  refine ⟨_, ⟨x, List.mem_filter.2 ⟨hx, by simp [h1]⟩, rfl⟩, ?_⟩
+  simp only [hb, if_true]
 
 theorem fragAt_payload (m pe : Nat) (pdata : Bytes) (p : Primary) (bs : List Blk) (o : Nat)
     (h : ∃ x ∈ bs, x.c.blockNum = 1) :
@@ -653,36 +659,36 @@ theorem selectBlocks_setBtsd (v : Option Bytes) (o : Nat) (bs : List Blk) :
   simp only [Function.comp]
   split <;> rfl
 
-private theorem set_fill_set (d : Bytes) (x : Blk) :
-    (fun y : Blk => if y.c.blockNum == 1 then ({ y with c := { y.c with btsd := some d } } : Blk) else y)
-      (fillBlk (if x.c.blockNum == 1 then { x with c := { x.c with btsd := none } } else x))
-    = (fun y : Blk => if y.c.blockNum == 1 then ({ y with c := { y.c with btsd := some d } } : Blk) else y)
-      (fillBlk x) := by
-  rcases x with ⟨⟨t, n, f, ct, btsd, crc⟩, layer⟩
-  by_cases hn : n = 1
-  · subst hn
-    cases btsd <;> cases layer <;> simp [fillBlk, Blk.ensure]
-  · simp [hn]
+/-- replace the payload block's data and drop its scapy layer (what a fragment's payload block is) -/
+def setPayload (d : Bytes) (bs : List Blk) : List Blk :=
+  bs.map (fun x => if x.c.blockNum == 1 then { c := { x.c with btsd := some d }, layer := none } else x)
 
-theorem setBtsd_fill_setBtsd (d : Bytes) (l : List Blk) :
-    setBtsd (some d) ((setBtsd none l).map fillBlk) = setBtsd (some d) (l.map fillBlk) := by
-  simp only [setBtsd, List.map_map]
-  apply List.map_congr_left
-  intro x _
-  exact set_fill_set d x
+theorem fillCrc_of_fillBlk_eq {x : Blk} (h : fillBlk x = x) : fillCrc x.c.crcType x.c.crc = x.c.crc := by
+  have := congrArg (fun y : Blk => y.c.crc) h
+  simpa [fillBlk] using this
 
-/-- The blocks of the fragment at offset `o`: the selected blocks of the container, payload data replaced. -/
+/-- The blocks of the fragment at offset `o`: the selected blocks of the container, payload data
+    replaced (and the payload block's layer dropped). -/
 theorem fragAt_blocks (m pe : Nat) (pdata : Bytes) (p : Primary) (bs : List Blk) (o : Nat)
     (hfill : ∀ x ∈ bs, fillBlk x = x) :
-    (fragAt m pe pdata p (setBtsd none bs) o).blocks =
-      setBtsd (some ((pdata.drop o).take (budget m pe pdata p (setBtsd none bs) o))) (selectBlocks o bs) := by
-  show setBtsd _ ((selectBlocks o (setBtsd none bs)).map fillBlk) = _
-  rw [selectBlocks_setBtsd, setBtsd_fill_setBtsd]
-  have : (selectBlocks o bs).map fillBlk = selectBlocks o bs := by
-    rw [List.map_congr_left (g := id)]
-    · simp
-    · intro x hx; exact hfill x (List.mem_filter.1 hx).1
-  rw [this]; rfl
+    (fragAt m pe pdata p bs o).blocks =
+      setPayload ((pdata.drop o).take (budget m pe pdata p bs o)) (selectBlocks o bs) := by
+  show setBtsd _ ((clearPayload (selectBlocks o bs)).map fillBlk) = _
+  simp only [setBtsd, clearPayload, setPayload, List.map_map]
+  apply List.map_congr_left
+  intro x hx
+  have hf := hfill x (List.mem_filter.1 hx).1
+  have hc := fillCrc_of_fillBlk_eq hf
+  simp only [Function.comp]
+  by_cases hn : (x.c.blockNum == 1) = true
+  · simp only [hn, if_true]
+    have : (fillBlk { c := { x.c with btsd := some [] }, layer := none }) =
+        { c := { x.c with btsd := some [], crc := x.c.crc }, layer := none } := by
+      simp [fillBlk, Blk.ensure, hc]
+    rw [this]
+    simp [hn, budget]
+  · have hn' : (x.c.blockNum == 1) = false := by simpa using hn
+    simp only [hn', Bool.false_eq_true, if_false, hf]
 
 /-! ### every scheduled fragment is really sent -/
 
@@ -697,16 +703,18 @@ theorem nums_setBtsd (v : Option Bytes) (l : List Blk) :
 theorem nums_fragAt (m pe : Nat) (pdata : Bytes) (p : Primary) (bs : List Blk) (o : Nat) :
     (fragAt m pe pdata p bs o).blocks.map (fun x => x.c.blockNum)
       = (selectBlocks o bs).map (fun x => x.c.blockNum) := by
-  show (setBtsd _ ((selectBlocks o bs).map fillBlk)).map _ = _
-  rw [nums_setBtsd, List.map_map]
+  show (setBtsd _ ((clearPayload (selectBlocks o bs)).map fillBlk)).map _ = _
+  rw [nums_setBtsd, clearPayload, List.map_map, List.map_map]
   apply List.map_congr_left
-  intro x _; simp
+  intro x _
+  simp only [Function.comp, fillBlk_num]
+  split <;> rfl
 
 theorem numsOk_fragAt (m pe : Nat) (pdata : Bytes) (p : Primary) (bs : List Blk) (o : Nat)
     (h : (0 :: bs.map (fun x => x.c.blockNum)).Nodup) : numsOk (fragAt m pe pdata p bs o) = true := by
   simp only [numsOk, decide_eq_true_eq, nums_fragAt]
   apply List.Nodup.sublist _ h
-  apply List.Sublist.cons₂
+  apply List.Sublist.cons_cons
   exact (List.filter_sublist).map _
 
 theorem crcTypesOk_fragAt (m pe : Nat) (pdata : Bytes) (p : Primary) (bs : List Blk) (o : Nat)
@@ -714,11 +722,11 @@ theorem crcTypesOk_fragAt (m pe : Nat) (pdata : Bytes) (p : Primary) (bs : List 
   simp only [crcTypesOk, Bool.and_eq_true, decide_eq_true_eq, List.all_eq_true]
   refine ⟨hp, ?_⟩
   intro y hy
-  have hy' : y ∈ setBtsd _ ((selectBlocks o bs).map fillBlk) := hy
-  simp only [setBtsd, List.mem_map] at hy'
-  obtain ⟨z, ⟨x, hx, rfl⟩, rfl⟩ := hy'
+  have hy' : y ∈ setBtsd _ ((clearPayload (selectBlocks o bs)).map fillBlk) := hy
+  simp only [setBtsd, clearPayload, List.mem_map] at hy'
+  obtain ⟨z, ⟨w, ⟨x, hx, rfl⟩, rfl⟩, rfl⟩ := hy'
   have := hb x (List.mem_filter.1 hx).1
-  split <;> simpa using this
+  split <;> split <;> simpa using this
 
 /-- the re-entry of a fragment hands exactly one byte string to the CL -/
 theorem resend_eq (cfg : Cfg) (hsec : cfg.secStep = id) (hre : cfg.reroute = true) (mtu : Option Nat)
@@ -772,10 +780,33 @@ theorem blksLen_filter_le (q : Blk → Bool) (bs : List Blk) : blksLen (bs.filte
     · simp only [blksLen_cons]; omega
     · simp only [blksLen_cons]; omega
 
-/-- deleting the payload data of a block without layer shrinks the encoding to one octet (null) -/
-theorem blksLen_setBtsd_none (bs : List Blk) (pb : Blk) (pdata : Bytes) (h1 : n1 bs ≤ 1)
-    (hpb : payloadBlk bs = some pb) (hd : pb.c.btsd = some pdata) (hl : pb.layer = none) :
-    blksLen (setBtsd none bs) + optLen (some pdata) = blksLen bs + 1 := by
+theorem clearPayload_of_n1_zero (bs : List Blk) (h : n1 bs = 0) : clearPayload bs = bs := by
+  induction bs with
+  | nil => rfl
+  | cons x xs ih =>
+    simp only [n1, List.filter_cons] at h
+    split at h
+    · simp at h
+    · rename_i hx
+      have hx' : (x.c.blockNum == 1) = false := by simpa using hx
+      have hxs : n1 xs = 0 := h
+      simp only [clearPayload, List.map_cons, hx', Bool.false_eq_true, if_false]
+      simp only [clearPayload] at ih
+      rw [ih hxs]
+
+theorem selectBlocks_clearPayload (o : Nat) (bs : List Blk) :
+    selectBlocks o (clearPayload bs) = clearPayload (selectBlocks o bs) := by
+  simp only [selectBlocks, clearPayload, List.filter_map]
+  congr 1
+  apply List.filter_congr
+  intro x _
+  simp only [Function.comp]
+  split <;> rfl
+
+/-- emptying the payload block (data := b'', layer dropped) shrinks its data field to one octet -/
+theorem blksLen_clearPayload (bs : List Blk) (pb : Blk) (pdata : Bytes) (h1 : n1 bs ≤ 1)
+    (hpb : payloadBlk bs = some pb) (hd : pb.c.btsd = some pdata) :
+    blksLen (clearPayload bs) + optLen (some pdata) = blksLen bs + 1 := by
   induction bs with
   | nil => simp [payloadBlk] at hpb
   | cons x xs ih =>
@@ -787,16 +818,16 @@ theorem blksLen_setBtsd_none (bs : List Blk) (pb : Blk) (pdata : Bytes) (h1 : n1
         simp only [payloadBlk, List.find?_cons, hx] at hpb
         exact Option.some.inj hpb
       subst hxp
-      have hs : setBtsd none (x :: xs) = { x with c := { x.c with btsd := none } } :: xs := by
-        have := setBtsd_of_n1_zero none xs hxs
-        simp only [setBtsd] at this
-        simp only [setBtsd, List.map_cons, hx, if_true, this]
+      have hs : clearPayload (x :: xs) = { c := { x.c with btsd := some [] }, layer := none } :: xs := by
+        have := clearPayload_of_n1_zero xs hxs
+        simp only [clearPayload] at this
+        simp only [clearPayload, List.map_cons, hx, if_true, this]
       rw [hs, blksLen_cons, blksLen_cons]
-      have e1 : ({ x with c := { x.c with btsd := none } } : Blk).ensure = { x with c := { x.c with btsd := none } } := by
-        simp [Blk.ensure, hl]
+      have e1 : ({ c := { x.c with btsd := some [] }, layer := none } : Blk).ensure
+          = { c := { x.c with btsd := some [] }, layer := none } := ensure_btsd_some _ [] rfl
       have e2 : x.ensure = x := ensure_btsd_some x pdata hd
       rw [e1, e2, canon_enc_length, canon_enc_length, hd]
-      simp [canonFixed, Canonical.count, optLen]
+      simp [canonFixed, Canonical.count, optLen, headLen]
       omega
     · have hx' : (x.c.blockNum == 1) = false := by simpa using hx
       have hxs : n1 xs ≤ 1 := by
@@ -804,8 +835,8 @@ theorem blksLen_setBtsd_none (bs : List Blk) (pb : Blk) (pdata : Bytes) (h1 : n1
         simpa [n1] using h1
       have hpb' : payloadBlk xs = some pb := by
         simpa only [payloadBlk, List.find?_cons, hx'] using hpb
-      have hs : setBtsd none (x :: xs) = x :: setBtsd none xs := by
-        simp only [setBtsd, List.map_cons, hx']; rfl
+      have hs : clearPayload (x :: xs) = x :: clearPayload xs := by
+        simp only [clearPayload, List.map_cons, hx']; rfl
       rw [hs, blksLen_cons, blksLen_cons]
       have := ih hxs hpb'
       omega
@@ -813,21 +844,27 @@ theorem blksLen_setBtsd_none (bs : List Blk) (pb : Blk) (pdata : Bytes) (h1 : n1
 /-- size of the "empty" fragment at any offset below the payload length -/
 theorem emptyFrag_size_le (b : FBundle) (pb : Blk) (pdata : Bytes) (o : Nat) (hfl : Filled b)
     (hfr : isFragment b.primary.flags = false) (h1 : n1 b.blocks ≤ 1)
-    (hpb : payloadBlk b.blocks = some pb) (hd : pb.c.btsd = some pdata) (hl : pb.layer = none)
+    (hpb : payloadBlk b.blocks = some pb) (hd : pb.c.btsd = some pdata)
     (ho : o < pdata.length) :
-    (emptyFrag b.primary (setBtsd none b.blocks) o pdata.length).size + pdata.length
+    (emptyFrag b.primary b.blocks o pdata.length).size + pdata.length
       ≤ b.size + headLen pdata.length + 1 := by
-  have hfl2 := filled_setBtsd none hfl
-  have hsel : ∀ x ∈ selectBlocks o (setBtsd none b.blocks), FilledCrc x.c.crcType x.c.crc :=
-    fun x hx => hfl2.2 x (List.mem_filter.1 hx).1
+  have hsel : ∀ y ∈ clearPayload (selectBlocks o b.blocks), FilledCrc y.c.crcType y.c.crc := by
+    intro y hy
+    simp only [clearPayload, List.mem_map] at hy
+    obtain ⟨x, hx, rfl⟩ := hy
+    have := hfl.2 x (List.mem_filter.1 hx).1
+    split <;> simpa using this
   have hb1 := blksLen_fill _ hsel
-  have hb2 := blksLen_filter_le (fun x => o == 0 || replicate x.c.flags || x.c.blockNum == 1) (setBtsd none b.blocks)
-  have hb3 := blksLen_setBtsd_none b.blocks pb pdata h1 hpb hd hl
+  have hb2 := blksLen_filter_le (fun x => o == 0 || replicate x.c.flags || x.c.blockNum == 1) (clearPayload b.blocks)
+  have hb3 := blksLen_clearPayload b.blocks pb pdata h1 hpb hd
+  have hb4 := selectBlocks_clearPayload o b.blocks
   have hp := fragPrimary_enc_length b.primary o pdata.length hfr hfl.1
   have hm := headLen_mono (Nat.le_of_lt ho)
   have hs := size_eq b
   rw [size_eq]
-  simp only [emptyFrag, fillFields, selectBlocks, optLen] at *
+  simp only [emptyFrag, fillFields]
+  rw [hb1, ← hb4]
+  simp only [selectBlocks, optLen] at *
   omega
 
 theorem createLoop_no_raise (m pe : Nat) (pdata : Bytes) (p : Primary) (bs : List Blk)
